@@ -3,6 +3,7 @@ import os
 import sys
 
 from . import common
+from checks import api_cov
 
 LEAN_TARGETS = ["QmcProps.C18", "drv_c18"]
 BINS = ["c18"]
@@ -124,4 +125,6 @@ def main(ck):
                         n_bad += 1
                         ck.add_failure("oracle", name, c, "<driver not built>", c["oracle"][5:], True)
                 ck.oblige("oracle %s on %d cases (driver unavailable)" % (name, len(cases)), n_bad == 0, "%d oracle failures" % n_bad)
+    api_cov.run(ck, "c18")   # otherwise unexercised public API, model-free oracles of this property
+    api_cov.run(ck, "c03")   # otherwise unexercised public API, model-free oracles of this property
     return ck.finish(RULE)
